@@ -39,6 +39,8 @@ type Options struct {
 	trace                          bool
 	seed                           int
 	native                         bool
+	xcheck                         string
+	xevery, natSample              int
 }
 
 func main() {
@@ -61,6 +63,9 @@ func main() {
 	fs.DurationVar(&o.budget, "budget", 0, "wall-clock budget for exploration")
 	fs.BoolVar(&o.trace, "trace", false, "trace instructions (single worker)")
 	fs.BoolVar(&o.native, "native", true, "also replay violations natively with go test -overlay when possible")
+	fs.StringVar(&o.xcheck, "xcheck", "", "selftest: comma-separated secondary solvers (cvc5,z3) that re-decide sampled queries")
+	fs.IntVar(&o.xevery, "xevery", 1, "selftest: re-decide every n-th query")
+	fs.IntVar(&o.natSample, "natsample", 0, "selftest: completed paths per harness whose model is also run natively")
 	replayFile := fs.String("file", "", "replay file")
 	noEvidence := fs.Bool("noevidence", false, "do not write the evidence file")
 	fs.Parse(os.Args[2:])
@@ -194,6 +199,14 @@ func runCheck(o *Options, writeEvidence bool) int {
 	if o.budget > 0 {
 		pool.deadline = time.Now().Add(o.budget)
 	}
+	if o.xcheck != "" {
+		pool.xNames = strings.Split(o.xcheck, ",")
+	}
+	pool.xEvery = o.xevery
+	if pool.xEvery < 1 {
+		pool.xEvery = 1
+	}
+	pool.natSample = o.natSample
 	pool.cond = sync.NewCond(&pool.mu)
 	for _, h := range hs {
 		pool.queue = append(pool.queue, Job{h, nil})
@@ -214,6 +227,8 @@ func runCheck(o *Options, writeEvidence bool) int {
 
 	// ---- collect, confirm by concrete replay, classify ----
 	kfs := loadKnown(o.verifDir)
+	xNames := pool.xNames
+	pool.xNames = nil // confirmation queries are not cross-checked
 	cw := &Worker{id: 99, prog: prog, pool: pool, tier: tier, solverName: o.solver, timeout: o.timeout}
 	cw.resetSolver()
 	defer cw.solver.Close()
@@ -291,6 +306,38 @@ func runCheck(o *Options, writeEvidence bool) int {
 	for _, f := range unconfirmed {
 		broken = append(broken, fmt.Sprintf("%s: counterexample for %s/%s at %s did not reproduce in concrete replay (engine or stub defect)", f.Harness, f.Kind, f.Label, f.Site))
 	}
+	// ---- selftest results ----
+	var nat *natStats
+	if o.natSample > 0 {
+		nat = nativeDifferential(o, prog, hs, tier)
+		fmt.Printf("SELFTEST native-differential: sampled=%d passed=%d engine-only=%d assumption-failed=%d disagreements=%d (build %.1fs) %s\n",
+			nat.Sampled, nat.Passed, nat.EngineOnly, nat.AssumeFail, nat.Disagree, nat.BuildS, nat.Note)
+		for _, e := range nat.Examples {
+			fmt.Println("  " + e)
+		}
+		if nat.Disagree != 0 || nat.AssumeFail != 0 {
+			broken = append(broken, fmt.Sprintf("selftest: engine and native run disagree on %d sampled paths", nat.Disagree+nat.AssumeFail))
+		}
+	}
+	for _, n := range xNames {
+		if xs := pool.xStats[n]; xs != nil {
+			fmt.Printf("SELFTEST cross-solver %s: compared=%d agree=%d either-unknown=%d disagree=%d\n", n, xs.Compared, xs.Agree, xs.Unknown, xs.Disagree)
+			for _, e := range xs.Examples {
+				fmt.Println("  " + e)
+			}
+			if xs.Disagree > 0 {
+				broken = append(broken, fmt.Sprintf("selftest: %d queries decided differently by %s", xs.Disagree, n))
+			}
+		}
+	}
+	selftest = map[string]interface{}{}
+	if nat != nil {
+		selftest["native_differential"] = nat
+	}
+	if len(xNames) > 0 {
+		selftest["cross_solver"] = pool.xStats
+		selftest["cross_solver_every"] = pool.xEvery
+	}
 	sort.Strings(broken)
 	for _, b := range broken {
 		fmt.Printf("INCONCLUSIVE property=%s %s\n", o.prop, b)
@@ -324,6 +371,8 @@ func runCheck(o *Options, writeEvidence bool) int {
 		o.prop, o.tier, len(hs), tp, q, qs, qu, qk, hits, qw.Seconds(), wall.Seconds(), (prog.loadTime + prog.buildTime).Seconds(), exit)
 	return exit
 }
+
+var selftest map[string]interface{}
 
 func sumVals(m map[string]int) int {
 	n := 0
@@ -520,6 +569,7 @@ func writeEvidenceFile(o *Options, prog *Program, hs []*Harness, workers []*Work
 			"load":                          map[string]interface{}{"packages": prog.nPkgs, "functions": prog.nFuncs, "load_s": prog.loadTime.Seconds(), "ssa_build_s": prog.buildTime.Seconds()},
 			"explore_wall_s":                exploreWall.Seconds(),
 			"workers":                       len(workers),
+			"selftest":                      selftest,
 		},
 		"assumptions": evidenceAssumptions(hs),
 	}
@@ -530,7 +580,7 @@ func writeEvidenceFile(o *Options, prog *Program, hs []*Harness, workers []*Work
 
 func evidenceAssumptions(hs []*Harness) []string {
 	base := []string{
-		"go/ssa (x/tools v0.29.0) lowers the current /repo source faithfully; symgo's instruction semantics match the Go spec (validated by selftest against native runs)",
+		"go/ssa (x/tools v0.29.0) lowers the current /repo source faithfully; symgo's instruction semantics match the Go spec (validated, not proved: every reported counterexample is re-run concretely and, where the harness allows, natively; with -natsample/-xcheck sampled completed paths are re-run against the real build and sampled queries re-decided by cvc5/z3 4.8 - see coverage.selftest when enabled)",
 		"environment stubs (harness/sarama/vstubs.go): fmt/errors.Is/sort.Slice re-implemented in Go; go-metrics objects are no-ops; compress/decompress are an axiomatised inverse pair; crc32 is computed natively on concrete bytes and is an uninterpreted, functionally consistent 32-bit value on symbolic bytes; time is a virtual clock, timers fire as scheduler events",
 		"bounds: loops, recursion, steps, collection sizes and (for concurrent harnesses) delay-bounded schedules as listed per harness; nothing is claimed outside them",
 		"data-race freedom of unsynchronised state between visible operations (channel ops, sync, atomics, go) is assumed for concurrent harnesses",
